@@ -3,6 +3,7 @@ C18 — Affected-version decisions follow the OSV range rules.
 Property theorems only; helper lemmas live in `Scalibr.Proofs.Vulns`.
 -/
 import Scalibr.Proofs.Vulns
+import Scalibr.Spec.VersionOrder
 namespace Scalibr.Vulns
 
 /-- For a well-formed range, listed in any order, the code's sort + binary-search decision is the OSV
@@ -37,6 +38,49 @@ theorem C18_decl (es : List Ev) (q : Nat) (h : WF es = true) : osvRange es q = o
   have hi := incr_of_WFfrom true none (sortEvents es) h
   rw [fold_eq_decl q none (sortEvents es) false hi]
   simp
+
+open Scalibr.Upgrade in
+/-- **C18 over the ecosystem's comparison.** Let `cmp` be the comparison `IsAffected` uses (with "0" below
+everything) and suppose it is a total preorder on the version strings at hand — equivalently (`C11_rank_exists_iff`)
+some rank function represents it there. Then for a range that is well formed once ordered, the code's sort +
+binary-search decision on the ranks is the OSV evaluation stated with `cmp` itself, for every queried version. -/
+theorem C18_range_cmp {α : Type} (cmp : α → α → Ordering) (vs : List α) (rank : α → Nat)
+    (hr : RankFor cmp vs rank) (es : List (EvS α)) (q : α)
+    (hes : ∀ e ∈ es, e.v ∈ vs) (hq : q ∈ vs) (hwf : WF (es.map (toRank rank)) = true) :
+    rangeDecision (es.map (toRank rank)) (rank q) = osvRangeC cmp es q := by
+  rw [C18_range _ _ hwf]
+  unfold osvRange osvRangeC osvScan sortEvents
+  have hlt : ∀ a ∈ es, ∀ b ∈ es, (cmp a.v b.v == .lt) = evLt (toRank rank a) (toRank rank b) := by
+    intro a ha b hb
+    rw [hr a.v (hes a ha) b.v (hes b hb)]
+    unfold evLt toRank
+    simp only []
+    cases h : compare (rank a.v) (rank b.v) <;>
+      simp_all [Nat.compare_eq_lt, Nat.compare_eq_eq, Nat.compare_eq_gt] <;> omega
+  rw [← isort_mapK evLt (toRank rank) es,
+      ← isort_congr_mem (fun a b => cmp a.v b.v == .lt) (fun a b => evLt (toRank rank a) (toRank rank b)) es hlt,
+      List.foldl_map]
+  have hperm := isort_perm (fun a b : EvS α => cmp a.v b.v == .lt) es
+  generalize isort (fun a b : EvS α => cmp a.v b.v == .lt) es = l at hperm
+  have hl : ∀ e ∈ l, e.v ∈ vs := fun e he => hes e (hperm.mem_iff.mp he)
+  clear hperm
+  generalize false = acc
+  induction l generalizing acc with
+  | nil => rfl
+  | cons e l ih =>
+    simp only [List.foldl]
+    have he : cmp q e.v = compare (rank q) (rank e.v) := hr q hq e.v (hl e (by simp))
+    have hstep : step (rank q) acc (toRank rank e) = stepC cmp q acc e := by
+      unfold step stepC toRank
+      simp only [he]
+      cases e.k <;> simp only [] <;>
+        (cases h : compare (rank q) (rank e.v) <;>
+          simp_all [Nat.compare_eq_lt, Nat.compare_eq_eq, Nat.compare_eq_gt] <;> omega)
+    rw [hstep]
+    exact ih (fun x hx => hl x (by simp [hx])) _
+
+/-- non-vacuity of `C18_range_cmp`: the numeric comparison on `Nat` with the identity rank -/
+example : Scalibr.Upgrade.RankFor (compare : Nat → Nat → Ordering) [0, 5, 7, 9] id := fun _ _ _ _ => rfl
 
 /-- Record level: with every range of the record well formed, `IsAffected` holds exactly when the
 specification's rule does (explicit listing, or an applicable range whose OSV evaluation is
